@@ -376,6 +376,17 @@ Proof.
   vm_compute. split; [|split; reflexivity]. intros H. discriminate H.
 Qed.
 
+Lemma counter_on_instance_refuted :
+  exists (s : str) (ps : pstate) (pos : nat),
+    let r1 := old_verb_parse (old_vnew None) s ps pos in
+    let r2 := old_verb_parse (fst r1) s ps pos in
+    snd r1 <> snd r2.
+Proof.
+  exists doc_v, (walker_state {| cx_macros := []; cx_envs := []; cx_specials := [];
+                                cx_unk_macro := None; cx_unk_env := None |}), 2.
+  exact (proj1 counter_on_instance_differs).
+Qed.
+
 (** * The generated default context against [kind_of_spec]
     [Gen/GenWalkerCtx.v] records, for every argument of the live default walker
     database, the specification string and the parser kind decoded structurally
